@@ -21,6 +21,8 @@ import numpy
 
 from common import Check, Driver, Infra, sarpy_guard, REPO
 
+DEFAULTS_REQUIRED = ['fill_explicit', 'fill_explicit_zero', 'fill_absent', 'fill_eq_default_iff', 'fillTruthy_differs_iff',
+                     'gen_hae0_fill', 'gen_gref_fill', 'gen_ugpn_fill', 'gen_hae0_explicit']
 REQUIRED = ['plane_point_on_plane', 'plane_point_range_sq', 'plane_point_range', 'plane_point_rdot',
             'planePoint_eq_some', 'imageToPlane_on_contour', 'coa_pointwise', 'batch_append', 'batch_perm',
             'batch_getElem', 'blocks_flatten', 'blockwise_eq_map', 'doWhile_spec', 'hae_exit_bound',
@@ -1214,7 +1216,16 @@ def run(tier):
     logging.getLogger('sarpy').setLevel(logging.CRITICAL)
     chk = Check('C04', tier)
     rng = chk.rng
-    broken = chk.prove(['SarpyModel.Props.C04', 'SarpyModel.Drivers'], 'SarpyModel.Props.C04', 'Sarpy.Props.C04', REQUIRED)
+    # argument defaults of the entry points (hae0, gref, ugpn): regenerated from the current source, bridged to Spec.Defaults.fill
+    import sys as _sys
+    _sys.path.insert(0, os.path.join(os.path.dirname(os.path.dirname(os.path.abspath(__file__))), 'translate'))
+    import gen_defaults
+    d_info = gen_defaults.generate(os.path.join(os.path.dirname(os.path.dirname(os.path.abspath(__file__))), 'lean', 'SarpyModel', 'Gen', 'Defaults.lean'))
+    broken = chk.prove(['SarpyModel.Props.C04', 'SarpyModel.Props.C04Defaults', 'SarpyModel.Drivers'], 'SarpyModel.Props.C04', 'Sarpy.Props.C04', REQUIRED,
+                       {'argument_defaults': {'hashes': d_info['hashes'], 'unsupported': d_info['unsupported'], 'fragments': d_info['fragments']}},
+                       extra=[('SarpyModel.Props.C04Defaults', 'Sarpy.Props.C04', DEFAULTS_REQUIRED)])
+    for nm_, why_ in d_info['unsupported']:
+        broken.append(f'translator gen_defaults could not express {nm_}: {why_}')
     bases = load_bases()
     cases = build_cases(rng, tier, bases)
     rec = Recorder()
